@@ -117,6 +117,10 @@ def _run_case(i):
     return res, time.time() - t0
 
 
+def _run_part(idx):
+    return [_run_case(i) for i in idx]
+
+
 def load_known(prop):
     path = os.path.join(VERIF, 'known_findings.jsonl')
     out = []
@@ -154,10 +158,19 @@ def run_check(prop, mod, tier, level, explanation, assumptions, trusted_base, x8
     results = []
     nproc = jobs or os.cpu_count() or 4
     if len(cases) > 1 and nproc > 1:
+        # Deterministic scheduling: the cases are dealt round-robin into a fixed number of partitions (independent of the core count) and every partition runs in
+        # a freshly forked worker (maxtasksperchild=1).  The hash-consed term ids a case sees therefore depend only on the cases before it in its own partition,
+        # never on which worker happened to be free: verdicts and decided counts are reproducible from run to run and from machine to machine.
+        nparts = min(len(cases), 64)
+        parts = [list(range(i, len(cases), nparts)) for i in range(nparts)]
         ctxm = mp.get_context('fork')
-        with ctxm.Pool(min(nproc, len(cases))) as pool:
-            for res, dt in pool.imap(_run_case, range(len(cases)), chunksize=max(1, len(cases) // (nproc * 8))):
-                results.extend(res)
+        by_index = {}
+        with ctxm.Pool(min(nproc, nparts), maxtasksperchild=1) as pool:
+            for part, outs in zip(parts, pool.imap(_run_part, parts, chunksize=1)):
+                for i, (res, dt) in zip(part, outs):
+                    by_index[i] = res
+        for i in range(len(cases)):
+            results.extend(by_index[i])
     else:
         for i in range(len(cases)):
             results.extend(_run_case(i)[0])
